@@ -34,7 +34,7 @@ def report_notimpl(run, meta):
 
 
 def collect(run, rng, nworlds, nqueries, mode, thresholds_fn, quality, nsteps=(4, 14), ndocs=(4, 12), depth=2,
-            scored_only=True, ops=NOFUZZY):
+            scored_only=True, ops=NOFUZZY, spans=False):
     """Returns (traces, meta, listcases)."""
     trs, meta, cases = [], [], []
     for wi in range(nworlds):
@@ -53,6 +53,8 @@ def collect(run, rng, nworlds, nqueries, mode, thresholds_fn, quality, nsteps=(4
                 qs = []
                 for qi in range(nqueries):
                     aq = world.rand_query(rng, rng.randrange(0, depth + 1), scored_only=scored_only, ops=ops)
+                    if spans and qi % 5 == 4:
+                        aq = world.rand_span_query(rng, rng.randrange(1, 3))
                     q = world.to_query(aq)
                     targets = [("top", s, -1)]
                     if not s.is_atomic():
@@ -173,7 +175,7 @@ def check(run):
                 "matchers judged against QuerySem!Denote; non-trivial = accepted trace with >6 events over a list "
                 "of >1 entries")
     trs, meta, cases = collect(run, rng, 12 if quick else 120, 30 if quick else 40, "exact",
-                               lambda rec, m: (0,), quality=False)
+                               lambda rec, m: (0,), quality=False, spans=True)
     judge_traces(run, "C11", trs, meta, "c11")
     report_notimpl(run, meta)
     from harness.props import c01
